@@ -103,6 +103,10 @@ def run(chk):
     shapes = []
     for _ in range(nshapes):
         kind, V = gen.convex_set(rng, kinds=("ellipsoid", "ellipsoid", "lattice", "prismatic", "flat", "needle", "creased"))
+        # any size: a third of the solids are rescaled exactly by a power of two between 2^-24 (6e-8) and 2^10
+        if rng.random() < 0.34 and kind != "creased":
+            V = V * 2.0 ** int(rng.integers(-24, 11))
+            kind += "*2^k"
         shapes.append((kind, V))
     if chk.tier == "thorough":
         shapes += tabulated()
